@@ -1040,6 +1040,20 @@ fn gen_c19(seed: u64, _index: u64, tier: Tier) -> ServerPlan {
                     OperatorAction::Write { path: p, content: c19_zone_content(apex, version, true) }
                 }
             };
+            // a slow writer: the file is first emptied, then holds a prefix, then
+            // everything - and the signal (at t0 + 5) may come before it is done
+            if let OperatorAction::Write { path, content } = &action {
+                if content.len() > 40 && r.chance(0.2) {
+                    let cut = r.range(1, content.len() as u64 - 1) as usize;
+                    let cut = (0..=cut).rev().find(|i| content.is_char_boundary(*i)).unwrap_or(0);
+                    let d1 = *r.pick(&[1u64, 3, 6, 10]);
+                    let d2 = d1 + *r.pick(&[1u64, 3, 6, 30]);
+                    operator.push(OperatorStep { at_ms: t0, action: OperatorAction::Write { path: path.clone(), content: String::new() } });
+                    operator.push(OperatorStep { at_ms: t0 + d1, action: OperatorAction::Write { path: path.clone(), content: content[..cut].to_string() } });
+                    operator.push(OperatorStep { at_ms: t0 + d2, action });
+                    continue;
+                }
+            }
             operator.push(OperatorStep { at_ms: t0, action });
         }
         operator.push(OperatorStep { at_ms: t0 + 5, action: OperatorAction::Signal });
@@ -1133,6 +1147,8 @@ fn gen_c19(seed: u64, _index: u64, tier: Tier) -> ServerPlan {
         faults.insert("udp.delay".into(), if forwarding { 1.0 } else { 0.7 });
         faults.insert("tcp.delay".into(), 0.7);
     }
+    // the operator acts in time order (steps at one instant keep the order they were planned in)
+    operator.sort_by_key(|s| s.at_ms);
     ServerPlan {
         knobs: ServerKnobsPlan {
             authoritative_only: !forwarding,
@@ -1466,7 +1482,7 @@ impl Property for C19 {
             .collect()
     }
     fn rule(&self) -> String {
-        "an authoritative-only server over -z/-Z/-A arguments; 1..6 phases, each 1..2 operator edits (replace a zone file with a new version, corrupt it in five ways, remove it, restore it, add a new file to the directory, add or corrupt a hosts file; whole-file replacement by rename) followed by SIGUSR1 (sometimes twice; in a third of the phases 1..2 further edit+signal pairs 1..55 ms apart, while the first reload may still be reading), with UDP and TCP queries 50 ms before to 1.2 s after the signal and injected read and listing errors and latencies in the file seam; record data carries the configuration version. Oracle: for every reload the expected configuration is what load_zone_configuration gives when run in isolation over exactly the results that reload was given (none = stay); the configuration behind the lock at every quiescent point equals it; a quiescent snapshot taken after the last signal followed the last edit (and whose last load met no injected fault) equals a fault-free load of the files as they then are; every reply equals the answer of one version that was in force between its receipt and its dispatch; injected recv_from/send_to/accept failures of the server's sockets; listeners alive and probes answered. Non-trivial = at least one SIGUSR1 delivered; distinct = distinct (operator script shape, event log)".into()
+        "an authoritative-only server over -z/-Z/-A arguments; 1..6 phases, each 1..2 operator edits (replace a zone file with a new version, corrupt it in five ways, remove it, restore it, add a new file to the directory, add or corrupt a hosts file; whole-file replacement by rename, one edit in five by a slow writer that leaves the file empty, then with a prefix, then whole, over 2..40 ms) followed by SIGUSR1 (sometimes twice; in a third of the phases 1..2 further edit+signal pairs 1..55 ms apart, while the first reload may still be reading), with UDP and TCP queries 50 ms before to 1.2 s after the signal and injected read and listing errors and latencies in the file seam; record data carries the configuration version. Oracle: for every reload the expected configuration is what load_zone_configuration gives when run in isolation over exactly the results that reload was given (none = stay); the configuration behind the lock at every quiescent point equals it; a quiescent snapshot taken after the last signal followed the last edit (and whose last load met no injected fault) equals a fault-free load of the files as they then are; every reply equals the answer of one version that was in force between its receipt and its dispatch; injected recv_from/send_to/accept failures of the server's sockets; listeners alive and probes answered. Non-trivial = at least one SIGUSR1 delivered; distinct = distinct (operator script shape, event log)".into()
     }
     fn assumptions(&self) -> Vec<String> {
         vec![
